@@ -17,6 +17,7 @@ import anyio
 from nintendo.nex import rmc, common, streams, settings as nexsettings
 import rmc_values as V
 import rmc_results as RES
+import rmc_frames as FR
 
 logging.getLogger("nintendo.nex").setLevel(logging.CRITICAL + 1)
 for _n in ("rmc", "common"):
@@ -179,6 +180,9 @@ class Cell:
         self.observed = None
         self.observed_type = None
         self.value_error = None
+        self.ref = None          # reference reading of the current request's parameters (rmc_frames), if the case carries one
+        self.schema = None
+        self.args = None         # the arguments the user method was invoked with, rendered in the shape of `ref`
 
 
 def instrument(srvinfo, cell):
@@ -193,6 +197,11 @@ def instrument(srvinfo, cell):
             sc = cell.script
             cell.called = m["user"]
             cell.calls.append([srvinfo["class"], m["user"]])
+            if cell.ref is not None:
+                if cell.ref.get("out") == "ok" and cell.ref.get("tree") is not None:
+                    cell.args = FR.render_real(args, cell.ref["tree"], cell.schema)
+                else:
+                    cell.args = FR.describe(args)
             for _ in range(sc.get("yields", 0)): await anyio.sleep(0)
             mode = sc["mode"]
             if mode == "stub": return await stub(client, *args)
@@ -269,6 +278,7 @@ async def run_session(srvinfos, cases, minor=0, max_yields=200, prebuilt=None):
     cell, servers = prebuilt if prebuilt else prebuild(srvinfos)
     peer = Peer(minor)
     S = config_settings(minor)
+    if any(c.get("ref") for c in cases): cell.schema = FR.schema_for(S)
     client = rmc.RMCClient(S, peer)
     state = {"loop": "alive"}
     async def loop():
@@ -287,6 +297,7 @@ async def run_session(srvinfos, cases, minor=0, max_yields=200, prebuilt=None):
                 results.append({"skipped": True}); continue
             cell.script = case["script"]; cell.called = None; cell.observed = None; cell.value_error = None; cell.observed_type = None
             cell.calls = []; cell.handled = []
+            cell.ref = case.get("ref"); cell.args = None
             peer.sent = []
             peer.send_yields = case["script"].get("send_yields", 0)
             peer.push(bytes.fromhex(case["datagram"]))
@@ -295,7 +306,7 @@ async def run_session(srvinfos, cases, minor=0, max_yields=200, prebuilt=None):
                 await anyio.sleep(0); n += 1
             results.append({"sent": [d.hex() for d in peer.sent], "loop": state["loop"], "observed": cell.observed,
                             "called": cell.called is not None, "hang": n >= max_yields, "observed_type": cell.observed_type, "value_error": cell.value_error,
-                            "closed": client.closed, "calls": cell.calls, "handled": cell.handled})
+                            "closed": client.closed, "calls": cell.calls, "handled": cell.handled, "args": cell.args})
         state["teardown"] = True
         tg.cancel_scope.cancel()
     return results
